@@ -559,27 +559,27 @@ Proof. intros s1 s2 sc e Hs. unfold teval. rewrite (tev_ext false s1 s2 Hs). ref
 (* ---------- the two deviations of the pinned commit ---------- *)
 (* the entry leak of boxed contexts: {inner: {secret: 42}, probe: secret} *)
 Definition leak_logic : expr :=
-  ECtx [(2001%N, ECtx [(2002%N, ENum 42)] None); (2003%N, EVar 2002%N)] None.
+  ECtx [(2001%N, ECtx [(2002%N, enum 42)] None); (2003%N, EVar 2002%N)] None.
 
 Theorem context_leak_orig_refuted :
-  teval_orig (fun _ _ => VNull) [] leak_logic = VCtx [(2001%N, VCtx [(2002%N, VNum 42)]); (2003%N, VNum 42)] /\
-  teval (fun _ _ => VNull) [] leak_logic = VCtx [(2001%N, VCtx [(2002%N, VNum 42)]); (2003%N, VNull)].
+  teval_orig (fun _ _ => VNull) [] leak_logic = VCtx [(2001%N, VCtx [(2002%N, vnum 42)]); (2003%N, vnum 42)] /\
+  teval (fun _ _ => VNull) [] leak_logic = VCtx [(2001%N, VCtx [(2002%N, vnum 42)]); (2003%N, VNull)].
 Proof. vm_compute. auto. Qed.
 
 (* a knowledge model requiring a decision service: input x (1), decision A = x + 1 (2), service S -> A (3),
    knowledge model f(p) = S(p) * 10 requiring S (4), decision B = f(x) requiring f (5) *)
 Definition G_ks : graph :=
   [(1%N, NInput 1%N);
-   (2%N, NDec 2%N (EAdd (EVar 1%N) (ENum 1)) [] [] [1%N] []);
+   (2%N, NDec 2%N (EAdd (EVar 1%N) (enum 1)) [] [] [1%N] []);
    (3%N, NSvc 3%N [1%N] [] [] [2%N]);
-   (4%N, NBkm 4%N [1001%N] (EMul (ECall 3%N [EVar 1001%N]) (ENum 10)) [3%N] [3%N]);
+   (4%N, NBkm 4%N [1001%N] (EMul (ECall 3%N [EVar 1001%N]) (enum 10)) [3%N] [3%N]);
    (5%N, NDec 5%N (ECall 4%N [EVar 1%N]) [4%N] [] [1%N] [3%N])].
 Definition O_ks : list N := [1%N; 2%N; 3%N; 4%N; 5%N].
 
 Theorem knowledge_service_orig_refuted :
   topo_ok G_ks O_ks = true /\ callable_ok G_ks = true /\
-  impl_invoke teval true G_ks 6 5%N [(1%N, VNum 1)] = VNum 20 /\
-  impl_invoke teval false G_ks 6 5%N [(1%N, VNum 1)] = VNull.
+  impl_invoke teval true G_ks 6 5%N [(1%N, vnum 1)] = vnum 20 /\
+  impl_invoke teval false G_ks 6 5%N [(1%N, vnum 1)] = VNull.
 Proof. vm_compute. auto. Qed.
 
 (* non-vacuity: a diamond (3 required by 4 and 5, both required by 6), a knowledge model requiring a knowledge model,
@@ -590,7 +590,7 @@ Definition G_ex : graph :=
    (4%N, NDec 4%N (EMul (EVar 3%N) (EVar 1%N)) [] [3%N] [1%N] []);
    (5%N, NDec 5%N (EAdd (EVar 3%N) (EVar 2%N)) [] [3%N] [2%N] []);
    (6%N, NDec 6%N (EAdd (EVar 4%N) (EVar 5%N)) [] [4%N; 5%N] [] []);
-   (7%N, NBkm 7%N [1001%N] (EAdd (EVar 1001%N) (ENum 1)) [] []);
+   (7%N, NBkm 7%N [1001%N] (EAdd (EVar 1001%N) (enum 1)) [] []);
    (8%N, NBkm 8%N [1001%N; 1002%N] (EMul (ECall 7%N [EVar 1001%N]) (EVar 1002%N)) [7%N] []);
    (9%N, NSvc 9%N [1%N] [3%N] [4%N] [6%N; 4%N]);
    (10%N, NDec 10%N (ECtx [(2001%N, EInvoke 8%N [(1002%N, EVar 6%N); (1001%N, EVar 1%N)]); (2002%N, ECall 9%N [EVar 1%N; EVar 6%N])] None)
@@ -599,8 +599,8 @@ Definition O_ex : list N := [1%N; 2%N; 3%N; 4%N; 5%N; 6%N; 7%N; 8%N; 9%N; 10%N].
 
 Example nonvacuous :
   topo_ok G_ex O_ex = true /\ callable_ok G_ex = true /\
-  impl_invoke teval true G_ex 11 6%N [(1%N, VNum 2); (2%N, VNum 3)] = VNum 18 /\
-  impl_invoke teval true G_ex 11 10%N [(1%N, VNum 2); (2%N, VNum 3); (3001%N, VNum 9)] =
-    VCtx [(2001%N, VNum 54); (2002%N, VCtx [(6%N, VNull); (4%N, VNum 36)])] /\
+  impl_invoke teval true G_ex 11 6%N [(1%N, vnum 2); (2%N, vnum 3)] = vnum 18 /\
+  impl_invoke teval true G_ex 11 10%N [(1%N, vnum 2); (2%N, vnum 3); (3001%N, vnum 9)] =
+    VCtx [(2001%N, vnum 54); (2002%N, VCtx [(6%N, VNull); (4%N, vnum 36)])] /\
   closure_names G_ex O_ex 6%N = [6; 4; 1; 3; 1; 2; 5; 2; 3; 1; 2]%N.
 Proof. vm_compute. auto. Qed.
